@@ -853,6 +853,61 @@ func main() {
 		}
 		sort.Strings(reassigned)
 		emitStrList("indexReassigned", reassigned, true)
+		// ids: how a document id becomes a record key (first argument of every record call in collection.go) and
+		// how keys and path segments become ids again (every strconv parse in collection.go, rest.go, dump.go)
+		var keyExprs, idParsers []string
+		if f := files["collection.go"]; f != nil {
+			for _, d := range f.Decls {
+				fd, ok := d.(*ast.FuncDecl)
+				if !ok || fd.Body == nil {
+					continue
+				}
+				for _, nm := range []string{"ReadRecord", "WriteRecord", "RemoveRecord"} {
+					for _, c := range findCalls(fd.Body, nm) {
+						if len(c.Args) > 0 {
+							keyExprs = append(keyExprs, fd.Name.Name+": "+nm+"("+strings.Join(strings.Fields(src(c.Args[0])), " ")+")")
+						}
+					}
+				}
+			}
+		}
+		for _, fname := range []string{"collection.go", "rest.go", "dump.go"} {
+			f := files[fname]
+			if f == nil {
+				continue
+			}
+			for _, d := range f.Decls {
+				fd, ok := d.(*ast.FuncDecl)
+				if !ok || fd.Body == nil {
+					continue
+				}
+				ast.Inspect(fd.Body, func(x ast.Node) bool {
+					if c, ok := x.(*ast.CallExpr); ok {
+						if se, ok := c.Fun.(*ast.SelectorExpr); ok {
+							if pk, ok := se.X.(*ast.Ident); ok && pk.Name == "strconv" &&
+								(strings.HasPrefix(se.Sel.Name, "Parse") || se.Sel.Name == "Atoi" || se.Sel.Name == "Itoa") {
+								idParsers = append(idParsers, fname+":"+fd.Name.Name+": "+strings.Join(strings.Fields(src(c)), " "))
+							}
+						}
+					}
+					return true
+				})
+			}
+		}
+		sort.Strings(keyExprs)
+		sort.Strings(idParsers)
+		var getAll, restIds []string
+		for _, p := range idParsers {
+			if strings.HasPrefix(p, "collection.go:GetAllIDs:") {
+				getAll = append(getAll, p)
+			}
+			if strings.HasPrefix(p, "rest.go:") && strings.Contains(p, "parts[") {
+				restIds = append(restIds, p)
+			}
+		}
+		emitStrList("recordKeyExprs", keyExprs, len(keyExprs) > 0)
+		emitStrList("getAllIDsParser", getAll, len(getAll) > 0)
+		emitStrList("restIdParsers", restIds, len(restIds) > 0)
 	}
 
 	// --- distance functions: statement shapes
